@@ -93,7 +93,8 @@ Section Spec.
 
   (* ---------- one run of install_requirements, as observed ---------- *)
   Record run_obs := {
-    ro_allow : bool;
+    ro_allow : bool;                   (* allow_all_imports as the user had set it when the run passed its gate *)
+    ro_required : list str;            (* the packages the requirement files of this run ask for (keys of the table) *)
     ro_env_before : alist;             (* installed packages when the run starts *)
     ro_rec_before : alist;             (* pyscript's record when the run starts *)
     ro_done : bool;                    (* ran to the end (neither the early return nor an exception) *)
@@ -152,6 +153,16 @@ Section Spec.
                    | _, _ => false
                    end
          end) args
+    (* ... and after a completed run that was allowed to install, the record tracks what is installed for every package
+       the files require: an entry whose package now has another version (someone else took it over) or is gone must
+       have been dropped - otherwise pyscript would later mistake the host's package for its own *)
+    && (negb (ro_done o) || negb (ro_allow o)
+        || forallb (fun kv =>
+             negb (existsb (str_eqb (fst kv)) (ro_required o))
+             || match truthy (alookup (strip (fst kv)) (ro_env_after o)) with
+                | Some iv => same_ver (strip (snd kv)) iv
+                | None => false
+                end) (ro_rec_after o))
     (* ... and nothing else enters the record *)
     && forallb (fun kv =>
          match alookup (fst kv) (ro_rec_before o) with
